@@ -555,6 +555,7 @@ class Campaign:
             raise ToolError("trace %s not consumed to its end (consumed %s of %d)" % (trace, consumed, len(events)))
         self.tlc_states += r.distinct
         self.traces += 1
+        self.conc_schedules = getattr(self, "conc_schedules", 0) + sum(1 for e in events if e["act"] == "Conc")
         self.events += len(events)
         self.scenarios += len(group)
         for sc_i, sc in enumerate(group):
@@ -681,4 +682,53 @@ def fam_outage(rng, cfg=CFG_A, ms=1500):
                    {"op": "fault", "kind": kind, "offset": off, "times": 1, "transient": rng.random() < 0.5}]
             ops += apoll("P1", ms) + [get(1, 1), get(1, 2), reg(2)] + apoll("P2", ms) + [get(1, 1), get(1, 2)] + apoll("P3", ms) + [sub(1)]
             out.append(scen("outage-download-%s-%d" % (kind, off), cfg, ops))
+    return out
+
+
+def conc(name, cfg, prefix, threads, preemptions=2, mx=150, rnd=10):
+    sc = scen(name, cfg, prefix)
+    sc["conc"] = {"threads": threads, "preemptions": preemptions, "max": mx, "random": rnd, "seed": 1}
+    return sc
+
+
+def cadd(u, i, blob=None):
+    return {"op": "add", "u": u, "l": D(i), "blob": blob if blob is not None else valid(i)}
+
+
+def fam_conc(rng, tier="quick"):
+    """C10/C11: two or three operations on real threads, every interleaving at lock-acquisition granularity within a
+    preemption bound (DFS), plus random schedules."""
+    mx = 120 if tier == "quick" else 1500
+    pb = 2 if tier == "quick" else 3
+    rnd = 10 if tier == "quick" else 100
+    CPOLL = {"op": "poll"}
+    out = []
+    # two submissions of the same appointment (new), and of an update
+    out.append(conc("conc-add-add-same", CFG_A, [reg(1)], [cadd(1, 1), cadd(1, 1)], pb, mx, rnd))
+    out.append(conc("conc-add-add-update", CFG_A, [reg(1), add(1, 1, valid(1, 3))], [cadd(1, 1, valid(1, 1)), cadd(1, 1, valid(1, 5))], pb, mx, rnd))
+    # an appointment accepted while the block containing its dispute is being processed
+    out.append(conc("conc-add-block-dispute", CFG_A, [reg(1), mine([D(1)], poll=False)], [cadd(1, 1), CPOLL], pb, mx, rnd))
+    out.append(conc("conc-update-block-dispute", CFG_A, [reg(1), add(1, 1, valid(1, 3)), mine([D(1)], poll=False)], [cadd(1, 1, valid(1, 1)), CPOLL], pb, mx, rnd))
+    # registration (renewal) against a charge; reads against writes
+    out.append(conc("conc-register-add", CFG_A, [reg(1)], [{"op": "register", "u": 1}, cadd(1, 1, valid(1, 3))], pb, mx, rnd))
+    out.append(conc("conc-add-get", CFG_A, [reg(1), add(1, 1, valid(1, 3))], [cadd(1, 1, valid(1, 1)), {"op": "get", "u": 1, "l": D(1)}], pb, mx, rnd))
+    # a block that purges the user while the user submits
+    pre = [reg(1), add(1, 1, valid(1))] + [ff(CFG_B["D"] + CFG_B["G"] - 1, "each"), mine([], poll=False)]
+    out.append(conc("conc-add-block-purge", CFG_B, pre, [cadd(1, 2), CPOLL], pb, mx, rnd))
+    out.append(conc("conc-get-block-purge", CFG_B, pre, [{"op": "get", "u": 1, "l": D(1)}, CPOLL], pb, mx, rnd))
+    # a block that completes a tracker (refund) while the same user is charged
+    pre = [reg(1), add(1, 1, valid(1, 3)), mine([D(1)]), mine([P(1, 3)]), ff(99, "end"), mine([], poll=False)]
+    out.append(conc("conc-add-block-complete", CFG_L, pre, [cadd(1, 2, valid(2, 3)), CPOLL], pb, mx, rnd))
+    out.append(conc("conc-register-block-complete", CFG_L, pre, [{"op": "register", "u": 1}, CPOLL], pb, mx, rnd))
+    # a block in which a stale penalty is rebroadcast while a late appointment is answered (carrier / db lock orders)
+    pre = [reg(1), reg(2), add(1, 1, valid(1)), mine([D(1), D(2)]), ff(5, "each"), mine([], poll=False)]
+    out.append(conc("conc-trigger-block-rebroadcast", CFG_A, pre, [cadd(2, 2, valid(2)), CPOLL], pb, mx, rnd))
+    # a reorg delivered while a late appointment for the disconnected block's dispute is answered
+    pre = [reg(1), mine([D(1)]), {"op": "reorg", "depth": 1, "blocks": [[], [D(1)]], "to_mempool": True}]
+    out.append(conc("conc-trigger-reorg", CFG_A, pre, [cadd(1, 1), CPOLL], pb, mx, rnd))
+    # three operations
+    out.append(conc("conc-add-add-block", CFG_A, [reg(1), reg(2), mine([D(1)], poll=False)], [cadd(1, 1), cadd(2, 1, valid(1, 2)), CPOLL], pb,
+                    mx, rnd))
+    out.append(conc("conc-register-add-get", CFG_A, [reg(1), add(1, 1)], [{"op": "register", "u": 1}, cadd(1, 2), {"op": "get", "u": 1, "l": D(1)}],
+                    pb, mx, rnd))
     return out
